@@ -188,7 +188,7 @@ static int cb_count_c(const void *e, void *p)
     if (v_n < 4 * MAXN + 8) v_seq[v_n] = idx_of(e);
     v_n++;
     if (v_n > 4 * MAXN) return 9999;
-    if (v_stop_at >= 0 && v_n == v_stop_at + 1) return v_stop_at + 1;
+    if (v_stop_at >= 0 && v_n == v_stop_at + 1) return (v_stop_at & 1) ? -(v_stop_at + 1) : v_stop_at + 1;      /* stop values of both signs */
     return 0;
 }
 static int cb_count(void *e, void *p) { return cb_count_c(e, p); }
@@ -409,7 +409,7 @@ static void w_apply(mc_op_t o)
         m_forced_settled = 1;
         if (ab) break;
         if (code == O_FOREACH_STOP) {
-            MC_CHECK(PC04, r == a + 1 && v_n == a + 1, "foreach with a visitor returning %d at visit #%d returned %d after %d visits", a + 1, a, r, v_n);
+            MC_CHECK(PC04, r == ((a & 1) ? -(a + 1) : a + 1) && v_n == a + 1, "foreach with a visitor returning %d at visit #%d returned %d after %d visits", (a & 1) ? -(a + 1) : a + 1, a, r, v_n);
             check_each_once(PC04, "foreach (stopped early)", a);
         } else {
             MC_CHECK(PC04, r == 0, "foreach returned %d with an always-zero visitor", r);
@@ -477,7 +477,7 @@ static void w_audit(void)
     for (j = 0; j < m_count; j++) {
         v_n = 0; v_stop_at = j;
         SHIM_CALL(ab, r = cstl_hash_foreach_const(T, cb_count_c, NULL));
-        MC_CHECK(PC04, !ab && r == j + 1 && v_n == j + 1, "foreach_const with a visitor returning %d at visit #%d returned %d after %d visits", j + 1, j, r, v_n);
+        MC_CHECK(PC04, !ab && r == ((j & 1) ? -(j + 1) : j + 1) && v_n == j + 1, "foreach_const with a visitor returning %d at visit #%d returned %d after %d visits", (j & 1) ? -(j + 1) : j + 1, j, r, v_n);
     }
     /* the canonical model fields and the public struct agree about where the table is heading */
     if (m_resized) {
@@ -511,6 +511,7 @@ static void w_canon(void)
     KB_C('c'); KB_U((unsigned)cur); canon_one(0); canon_one(1); KB_C('O'); KB_U(m_off[0]); KB_C(','); KB_U(m_off[1]);
     KB_C('m'); KB_U(m_nreq); KB_C('f'); KB_U((unsigned)m_freq); KB_C(m_forced_settled ? 's' : 'u'); KB_C(m_resized ? 'R' : '-');
     { int i; for (i = 0; i < N; i++) KB_C(m_member[i] ? '1' : '0'); }
+    { int i; for (i = 0; i < N; i++) if (pool[i].pad != 0x1111 || pool[i].tail != 0x2222 || pool[i].pad2 != 0x3333) { KB_C('X'); KB_U((unsigned)i); } }
     if (m_budget >= 0) { KB_C('B'); KB_U((unsigned)m_budget); KB_C('.'); KB_U((unsigned)m_since); }
 }
 static void w_opname(mc_op_t o, char *b, size_t n)
